@@ -18,6 +18,7 @@ import (
 	"path/filepath"
 	"strconv"
 	"strings"
+	"unicode/utf8"
 
 	"github.com/benoitkugler/webrender/css/selector"
 	"golang.org/x/net/html"
@@ -102,7 +103,7 @@ func treeText(n *html.Node) string {
 }
 
 var (
-	tags     = []string{"a", "p", "div", "b", "x-y", "span"}
+	tags     = []string{"a", "p", "div", "b", "x-y", "span", "x-foo", "x-bar", "my-el"} // incl. custom elements (DataAtom 0)
 	classes  = []string{"c1", "c2", "k"}
 	ids      = []string{"i1", "i2"}
 	attrKeys = []string{"a", "b", "data-x"}
@@ -236,6 +237,10 @@ func genTree(r *rng.R, o treeOpts) *html.Node {
 	body := mk(html.ElementNode, "body", genAttrs(r, o)...)
 	h.AppendChild(body)
 	genChildren(r, body, &budget, 0, o)
+	if r.P(1, 4) { // webrender's tree.NewHTML detaches the root element from its document
+		doc.RemoveChild(h)
+		return h
+	}
 	return doc
 }
 
@@ -740,6 +745,73 @@ func first(ks []string) string {
 }
 
 // ---------------------------------------------------------------------------------------------
+// the proved domain
+
+// treeInDomain: every node satisfies LocalOk (lean/WR/C05/Domain.lean) and the modelling assumptions
+// (DataAtom = atom.Lookup(Data), valid UTF-8).
+func treeInDomain(root *html.Node) bool {
+	ok := true
+	for _, n := range preorder(root, nil) {
+		if !utf8.ValidString(n.Data) {
+			ok = false
+		}
+		for _, a := range n.Attr {
+			if !utf8.ValidString(a.Key) || !utf8.ValidString(a.Val) {
+				ok = false
+			}
+		}
+		switch n.Type {
+		case html.ElementNode:
+			if n.DataAtom != atom.Lookup([]byte(n.Data)) {
+				ok = false
+			}
+			switch {
+			case n.Parent == nil, n.Parent.Type == html.DocumentNode:
+				if n.Data != "html" {
+					ok = false
+				}
+			case n.Parent.Type != html.ElementNode:
+				ok = false
+			}
+		case html.TextNode, html.CommentNode:
+		default: // Doctype, Document: no element among the previous siblings
+			for p := n.PrevSibling; p != nil; p = p.PrevSibling {
+				if p.Type == html.ElementNode {
+					ok = false
+				}
+			}
+		}
+	}
+	return ok
+}
+
+// selInDomain is selOk: no ^= $= *= with a non-empty blank value (the documented deviation).
+func selInDomain(a selector.VerifC05AST) bool {
+	ok := true
+	walkAST(a, func(n selector.VerifC05AST) {
+		if n.Kind == "attr" && (n.Op == "^=" || n.Op == "$=" || n.Op == "*=") && n.Val != "" && strings.TrimSpace(n.Val) == "" {
+			ok = false
+		}
+		if !utf8.ValidString(n.Name) || !utf8.ValidString(n.Key) || !utf8.ValidString(n.Val) {
+			ok = false
+		}
+	})
+	return ok
+}
+
+// matchDiffers classifies a difference between Match and the model. Inside the proved domain the model IS
+// the Selectors relation (matches_iff_spec_document_partial), so the implementation violates the property:
+// a judge finding. Outside (wild trees, blank-value quirk) it only breaks the correspondence.
+func matchDiffers(inDomain bool, input, impl, model, why string, seed uint64) res.Finding {
+	if inDomain {
+		return res.Finding{Kind: "judge", Op: "judge:match-differs-from-definition", Input: input, Impl: impl, Model: model, Seed: seed,
+			Reason: why + "; selector in selOk and every node of the tree LocalOk: there the model is proved equal to the Selectors definition (theorem WR.Props.C05.matches_iff_spec_document_partial), so Match departs from the definition"}
+	}
+	return res.Finding{Kind: "corr", Op: "corr:match", Input: input, Impl: impl, Model: model, Seed: seed, Key: "outside-proved-domain",
+		Reason: why + "; outside the proved domain (tree not LocalOk or selector not in selOk)"}
+}
+
+// ---------------------------------------------------------------------------------------------
 // one case
 
 type runner struct {
@@ -837,6 +909,10 @@ func (c *runner) check(selText string, root *html.Node, seed uint64, feat map[st
 		return fmt.Errorf("model answered %s for %s", ans.String(), input)
 	}
 	nontrivial := false
+	treeOK := treeInDomain(root)
+	if treeOK {
+		c.out.Hit("domain:tree-LocalOk")
+	}
 	for i := range group {
 		r := ans.Xs[i+1]
 		if len(r.Xs) != 4 || len(r.Xs[2].Xs) != 4 {
@@ -849,12 +925,17 @@ func (c *runner) check(selText string, root *html.Node, seed uint64, feat map[st
 		}
 		mPE := r.Xs[3].S
 		if mBits != implBits[i] {
-			c.add(res.Finding{Kind: "corr", Op: "corr:match", Input: input, Impl: implBits[i], Model: mBits,
-				Reason: fmt.Sprintf("selector #%d of the group: match bits per node (document order) differ", i), Key: stream, Seed: seed})
+			c.add(matchDiffers(treeOK && selInDomain(asts[i]), input, implBits[i], mBits,
+				fmt.Sprintf("selector #%d of the group (%s stream): match bits per node (document order) differ", i, stream), seed))
 		}
-		if mSpec != implSpec[i] || mPE != implPE[i] {
-			c.add(res.Finding{Kind: "corr", Op: "corr:specificity", Input: input, Impl: fmt.Sprint(implSpec[i], implPE[i]), Model: fmt.Sprint(mSpec, mPE),
-				Reason: "Specificity()/PseudoElement() differ from the model", Key: stream, Seed: seed})
+		if mSpec != implSpec[i] {
+			// specificity_eq_spec is unconditional: the model's weight IS the definition's
+			c.add(res.Finding{Kind: "judge", Op: "judge:specificity-differs-from-definition", Input: input, Impl: fmt.Sprint(implSpec[i]), Model: fmt.Sprint(mSpec),
+				Reason: "Specificity() differs from the model, which is proved equal to the Selectors definition for every selector (theorem WR.Props.C05.specificity_eq_spec)", Seed: seed})
+		}
+		if mPE != implPE[i] {
+			c.add(res.Finding{Kind: "corr", Op: "corr:pseudo-element", Input: input, Impl: implPE[i], Model: mPE,
+				Reason: "PseudoElement() differs from the model", Key: stream, Seed: seed})
 		}
 		if strings.Contains(implBits[i], "1") && strings.Contains(implBits[i][1:], "0") {
 			nontrivial = true
@@ -941,12 +1022,13 @@ func (c *runner) emptyValue(r *rng.R, n int) {
 }
 
 type corpusCase struct {
-	Name string   `json:"name"`
-	What string   `json:"what"`
-	Sel  string   `json:"sel"`
-	Doc  string   `json:"doc"`
-	Want []string `json:"want"` // ids of the elements that must match, in document order
-	Spec []int    `json:"spec"` // optional: Specificity() of the first selector
+	Name   string   `json:"name"`
+	What   string   `json:"what"`
+	Sel    string   `json:"sel"`
+	Doc    string   `json:"doc"`
+	Want   []string `json:"want"`   // ids of the elements that must match, in document order
+	Spec   []int    `json:"spec"`   // optional: Specificity() of the first selector
+	Detach bool     `json:"detach"` // detach the root element from its document first (tree.NewHTML does)
 }
 
 // corpus runs /verif/corpus/C05/*.json first: expectations read off Selectors 3/4 (HTML: document white
@@ -974,6 +1056,15 @@ func (c *runner) corpus() error {
 			continue
 		}
 		doc, _ := html.Parse(strings.NewReader(p.Doc))
+		if p.Detach {
+			for h := doc.FirstChild; h != nil; h = h.NextSibling {
+				if h.Type == html.ElementNode {
+					doc.RemoveChild(h)
+					doc = h
+					break
+				}
+			}
+		}
 		got := []string{}
 		for _, n := range preorder(doc, nil) {
 			if n.Type != html.ElementNode || !g.Match(n) {
@@ -1027,7 +1118,7 @@ func Run(tier string, seed uint64, modelPath, repo string, out *res.Result) erro
 		nMain, nWild, nEsc, nEmpty, nMal = 120000, 30000, 60000, 20000, 60000
 	}
 	out.Rule = "case = (selector group text generated from the supported grammar, tree); the real parser's AST (hook) and the tree go to the Lean model; " +
-		"compared for EVERY node of the tree: match bit of every selector of the group, plus specificity and pseudo-element. " +
+		"compared for EVERY node of the tree: match bit of every selector of the group, plus specificity and pseudo-element; a difference on a LocalOk tree and a selOk selector (resp. any specificity difference) is a judge finding by the theorems, otherwise a corr finding. " +
 		"Trees: built directly as *html.Node (text/comment siblings, blank/doubled-space attribute values) and, one in three, re-read through html.Render+html.Parse. " +
 		"Streams: main, wild (outside LocalOk: nested html, exotic spaces, attributes on comments/doctype, fragments), escapes (names with leading digits/hyphens, specials, control characters, non-ASCII written with random CSS escapes, values with quotes/backslashes/newlines, the same odd names in the trees: exercises String()), " +
 		"malformed (mutated selector text: parse errors must not crash; accepted ones are compared), judges empty-value and corpus, thorough: exhaustive small bounds. " +
